@@ -18,6 +18,8 @@ define_language! {
         Let(Bind<AppliedId>, AppliedId) = "let",
         Sum(AppliedId, Bind<Bind<AppliedId>>) = "sum",
         Var(Slot) = "var",
+        K3(AppliedId, AppliedId, AppliedId) = "k",
+        W(Slot, AppliedId) = "w",
     }
 }
 
@@ -35,6 +37,8 @@ pub const SYM_SIG: Sig = &[
     ("let", "bc"),
     ("sum", "cB"),
     ("var", "s"),
+    ("k", "ccc"),
+    ("w", "sc"),
 ];
 
 /// how harness names become slots
@@ -112,6 +116,13 @@ pub fn mk_node(t: &T, nm: Naming, kids: &mut dyn FnMut() -> AppliedId) -> Sym {
             let b = kids();
             Sym::B(a, b)
         }
+        "k" => {
+            let a = kids();
+            let b = kids();
+            let c = kids();
+            Sym::K3(a, b, c)
+        }
+        "w" => Sym::W(sl(0), kids()),
         "lam" => {
             let Arg::Bind(xs, _) = &t.args[0] else { panic!() };
             Sym::Lam(Bind { slot: s(xs[0]), elem: kids() })
